@@ -29,8 +29,8 @@ RULE = ("random abstract DSLs (families F1-F6) with 1-2 constant-slot types comp
         "instantiated language has >= 3 programs, candidates contain members and non-members.")
 ASSUMPTIONS = ["values are ints / bools / lists of those, never None; equal values are equal as Python objects with equal str()",
                "float tolerance as in C04 (one extra division per instantiated rule)",
-               "grammars as in C04 (finite, <= 2500 programs before instantiation); TTCFGs with constants are exercised "
-               "through CFG (a subclass): TTCFG.size_constraint has no constant slots"]
+               "grammars as in C04 (finite, <= 2500 programs before instantiation); genuine TTCFGs with constant slots are built as "
+               "CFG.depth_constraint(constant_types=...) * DFA counting the slots (or the leaves) used (kind cfgdfa)"]
 
 _CACHE = {}
 frac = c04.frac
@@ -59,7 +59,7 @@ def gen(rng, tier):
     n = 60 if tier == "quick" else 500
     cases = []
     for i in range(n):
-        kind = ["cfg", "ucfg"][i % 2]
+        kind = ["cfg", "ucfg", "cfgdfa", "cfg", "ucfg"][i % 5]
         dsl = D.gen_dsl(rng, rng.choice(["F1", "F2", "F2", "F3", "F6"]))
         _, ret = D.arrow_parts(dsl["request"])
         used = []
@@ -98,7 +98,8 @@ def gen(rng, tier):
                 uniq.append(c)
         prob = 1 if rng.random() < 0.7 else 0
         wmode = rng.choice(["uniform", "hand"])
-        gp = [dsl["prims"], dsl["forbidden"], dsl["request"], bound, min_var, n_gram, dsl["const_types"], ""]
+        spec = "dfa:%d:%s" % (rng.choice([1, 2, 2, 3]), rng.choice(["const", "const", "const", "leaf"])) if kind == "cfgdfa" else ""
+        gp = [dsl["prims"], dsl["forbidden"], dsl["request"], bound, min_var, n_gram, dsl["const_types"], spec]
         c = {"kind": kind, "data": [gp, prob, wmode, rng.randrange(1, 10 ** 6), vt, uniq]}
         if len(vt) >= 2 and rng.random() < 0.6:
             c["two_step"] = 1          # one instantiate_constants call per type instead of one call
